@@ -251,7 +251,7 @@ def run_case(spec):
             gp = {g['view'][0] for g in p['globs']}
             for view, node in p['W']:
                 if view[0] in gp:
-                    d = p['schema'][view[0]]['*'][view[-1]].get('_default')
+                    d = getp(p['schema'][view[0]]['*'], view[2:]).get('_default')
                 else:
                     d = getp(p['schema'], view).get('_default')
                 declared.setdefault(tuple(node), set())
